@@ -46,6 +46,12 @@ class Closure:
         self.frame = frame
 
 
+class SuperRef:
+    def __init__(self, obj, cls):
+        self.obj = obj
+        self.cls = cls
+
+
 class BoundMethod:
     """method of a builtin value (bytes.hex, list.append, stream.read, ...)"""
 
@@ -753,19 +759,21 @@ class Interp:
         ctx.pc.append(assumption)
         ctx.solver.add(assumption)
         ctx.speculating += 1
+        ok = False
         try:
             v = self.eval(node, fr)
-        except (PyRaise, PathEnd, Unsupported):
-            # cannot merge: let the caller fork
+            ok = True
+        except (PyRaise, PathEnd, Unsupported, NeedFork):
+            pass
+        finally:
+            added = ctx.pc[npc + 1:]
             del ctx.pc[npc:]
             ctx.solver.pop()
             ctx.speculating -= 1
+        if not ok:
+            # cannot merge: let the caller fork
             raise NeedFork()
         # facts added during evaluation are definitional: keep them, but guarded
-        added = ctx.pc[npc + 1:]
-        del ctx.pc[npc:]
-        ctx.solver.pop()
-        ctx.speculating -= 1
         for f in added:
             ctx.fact(z3.Implies(assumption, f))
         return v
@@ -886,7 +894,13 @@ class Interp:
             else:
                 kwargs[kw.arg] = self.eval(kw.value, fr)
         if isinstance(n.func, ast.Name) and n.func.id == "super":
-            raise Unsupported("super()")
+            if n.args or fr.fi is None or fr.fi.cls is None:
+                raise Unsupported("super() with arguments / outside a method")
+            f = fr
+            while f.parent is not None:
+                f = f.parent
+            first = fr.fi.node.args.args[0].arg
+            return SuperRef(f.env[first], fr.fi.cls)
         fn = self.eval(n.func, fr)
         return self.call_value(fn, args, kwargs)
 
